@@ -1,6 +1,7 @@
 #!/bin/bash
 # Usage: tools/seed_regress.sh [seed-dir-name ...]  — re-runs every kept seeded change against the checks its meta.json
-# names in caught_by and prints CAUGHT / MISSED per (seed, check).  Applies each patch to /repo and undoes it.
+# names in caught_by and prints CAUGHT / MISSED per (seed, check).  Each patch is applied to a SNAPSHOT of /repo's HEAD
+# (tools/seed_snap.sh), never to /repo itself.
 cd "$(dirname "$0")/.."
 V=$(pwd)
 R=${VERIF_REPO:-/repo}
@@ -16,7 +17,7 @@ for c in m.get('caught_by',[]):
     if x and x.group(1) not in ids: ids.append(x.group(1))
 print(' '.join(ids))")
   for c in $checks; do
-    out=$(tools/seed_run.sh $V/seeded/$s $c 2>&1)
+    out=$(tools/seed_snap.sh $V/seeded/$s $c 2>&1)
     if echo "$out" | grep -q "^VIOLATION property=$c"; then echo "CAUGHT $s $c"; else echo "MISSED $s $c :: $(echo "$out" | grep -vE 'KNOWN-FINDING' | tail -2 | tr '\n' ' ' | cut -c1-160)"; fi
   done
 done
